@@ -295,3 +295,32 @@ pub fn crash_alphabet(g: &Geo) -> Vec<Op> {
     ops.push(Op::Sync);
     ops
 }
+
+
+/// alphabet aimed at copy-on-write over the source clusters 0..3 (C10) and discard (C11)
+pub fn cow_alphabet(g: &Geo) -> Vec<Op> {
+    let (bs, cs, v) = (g.bs(), g.cs(), g.vsize());
+    let mut ops = vec![];
+    let mut tag = 1u32;
+    let mut w = |off: u64, len: u64, ops: &mut Vec<Op>| {
+        if off + len <= v && len > 0 {
+            ops.push(Op::Write { off, len: len as usize, tag });
+            tag += 1;
+        }
+    };
+    w(0, bs, &mut ops); // head of source cluster 0
+    if cs > bs {
+        w(cs - bs, bs, &mut ops); // tail of source cluster 0
+    }
+    w(cs - bs, 2 * bs, &mut ops); // straddling source clusters 0|1
+    w(cs, cs, &mut ops); // whole source cluster 1
+    w(2 * cs + (cs / 2 / bs * bs), bs.min(cs / 2).max(bs), &mut ops); // middle of source cluster 2
+    w(cs, 3 * cs, &mut ops); // batch over clusters 1..3 (own + source)
+    w(4 * cs, bs, &mut ops); // beyond a short backing image / unallocated
+    ops.push(Op::Read { off: 0, len: (2 * cs) as usize });
+    ops.push(Op::Discard { off: 0, len: cs });
+    ops.push(Op::Discard { off: 0, len: 4 * cs });
+    ops.push(Op::Flush);
+    ops.push(Op::Reopen);
+    ops
+}
